@@ -44,3 +44,11 @@ package listoffsets
 //@ wire ResponsePartition
 //@   layout v1..v3 Partition int32, ErrorCode int16, Timestamp int64, Offset int64
 //@   layout v4..v5 Partition int32, ErrorCode int16, Timestamp int64, Offset int64, LeaderEpoch int32
+
+//@ property C12
+// Routing (C12): which of the protocol message interfaces the request satisfies decides where the Transport sends it
+// (connPool.sendRequest tests BrokerMessage, then GroupMessage, then TransactionalMessage).
+//@ wire Request
+//@   implements protocol.BrokerMessage
+//@   notimplements protocol.GroupMessage
+//@   notimplements protocol.TransactionalMessage
